@@ -168,7 +168,16 @@ def check_case(acc, pendulum, zname, inst, kw, variants=True):
 def run_shard(shard):
     import pendulum
     acc = core.Acc(ID)
-    amounts = _amounts(shard["thorough"])
+    amounts = _amounts(shard.get("thorough", False))
+    if shard.get("kind") == "chains":
+        from .. import chain
+        for sd in shard["seeds"]:
+            chain.explore(acc, pendulum, sd["z"], sd["inst"], sd["zones"], shard["depth"], {'fixed'})
+            acc.c["nontrivial"] += 1
+        acc.sample({"chain_seed": [shard["seeds"][0]["z"], obs.iso(shard["seeds"][0]["inst"])], "depth": shard["depth"],
+                    "zones": [str(z) for z in shard["seeds"][0]["zones"]],
+                    "ops": "in_timezone x zones, add/subtract hours/minutes/seconds, +/- timedelta, add days/weeks/months"})
+        return acc.result()
     seen_states = set()
     for z in shard["zones"]:
         if z is None or isinstance(z, int):
@@ -197,6 +206,10 @@ def run_shard(shard):
 
 def replay_case(case, acc):
     import pendulum
+    if case.get("kind") == "chain":
+        from .. import chain
+        chain.replay(acc, pendulum, case, {'fixed'})
+        return
     check_case(acc, pendulum, case["z"], case["inst"], case["kw"], variants=True)
 
 
@@ -205,6 +218,9 @@ def plan(tier, seed):
     zones = list(seeds.all_zones()) + list(seeds.WITNESS_FIXED) + [None]
     shards = [{"zones": ch, "thorough": thorough, "limit": 0 if thorough else 10, "seed": seed}
               for ch in seeds.chunks(zones, 64)]
+    from .. import chain
+    cs = chain.chain_seeds(seed, 3 if not thorough else 8)
+    shards += [{"kind": "chains", "seeds": ch, "depth": 3} for ch in seeds.chunks(cs, 32)]
     plans = [({"ext": 1, "tz": "sys"}, shards)]
     if thorough:
         plans.append(({"ext": 0, "tz": "pkg"}, shards))
